@@ -2,5 +2,5 @@
 # usage: tools/run_seed.sh <seed-id> [prop]  -- apply a stored seeded change to /repo, run the property's check, undo it
 S=$1; P=${2:-${S%%-*}}
 git -C /repo apply /verif/seeded/$S/patch.diff || exit 2
-cd /verif && bin/govc check --property $P --contracts mirror 2>&1 | grep -E "VIOLATION|govc:" | sed 's/replay=.*replays.[A-Z0-9]*.//' | head -${MUTLINES:-6}
+cd /verif && GOVC_EVIDENCE_DIR=/verif/out/evidence-experiments bin/govc check --property $P --contracts mirror 2>&1 | grep -E "VIOLATION|govc:" | sed 's/replay=.*replays.[A-Z0-9]*.//' | head -${MUTLINES:-6}
 git -C /repo checkout -- .
